@@ -15,4 +15,6 @@ ENTRIES = [
     Entry('hs-upper-uses-min', H, [('    max_mob = np.amax(modified_mob, axis=0)    # (p, e) -> (e,)', '    max_mob = np.amin(modified_mob, axis=0)    # (p, e) -> (e,)')], 'R17.4'),
     Entry('benign-sum-by-name-lookup', H, [("        alpha_mob = mobility[phases.index(alpha_phase)]", "        alpha_row = phases.index(alpha_phase)\n        alpha_mob = mobility[alpha_row]")], kind='benign'),
     Entry('benign-wiener-plain-product', H, [("    avg_mob = np.sum(np.multiply(phaseFracs[:,np.newaxis], modified_mob), axis=0)\n    return avg_mob\n\ndef wienerLower", "    avg_mob = np.sum(phaseFracs[:,np.newaxis] * modified_mob, axis=0)\n    return avg_mob\n\ndef wienerLower")], kind='benign'),
+    Entry('argmax-name-lookup-unguarded', H, [("    if alpha_phase in phases:\n        alpha_mob = mobility[phases.index(alpha_phase)]", "    if len(phases) > 0:\n        alpha_mob = mobility[np.argmax(np.array(phases) == alpha_phase)]")], 'R17.N'),
+    Entry('benign-argmax-name-lookup-guarded', H, [("    if alpha_phase in phases:\n        alpha_mob = mobility[phases.index(alpha_phase)]", "    if np.any(np.array(phases) == alpha_phase):\n        alpha_mob = mobility[np.argmax(np.array(phases) == alpha_phase)]")], kind='benign'),
 ]
